@@ -8,6 +8,9 @@ from checks import hintgen
 from worlds.mailbox import MailboxWorld
 from wormhole import errors as E
 
+INTERNAL = ("TypeError", "AttributeError", "KeyError", "IndexError",
+            "AssertionError", "NameError", "OverflowError", "NoTransition")
+
 
 def _state(m):
     try:
@@ -106,6 +109,10 @@ def run_late_relay(seed, tape, w, a, b, code):
             V("C20.dilation.escaped.%s" % etype, "handling peer hints never "
               "raises", "%s: %s; timed lists %s" %
               (etype, text[:160], json.dumps(injected)[:300]))
+        elif etype in INTERNAL:
+            V("C20.dilation.internal_error_logged.%s" % etype, "handling peer "
+              "hints never raises", "%s: %s; timed lists %s" %
+              (etype, text[:200], json.dumps(injected)[:300]))
     for c in (a, b):
         c.do_close()
     sim.run(3000, until=lambda: a.is_closed and b.is_closed, max_time=200)
@@ -272,8 +279,15 @@ def run_dilation(seed, tape, opts):
             V("C20.dilation.escaped.%s" % etype, "handling peer hints never "
               "raises", "%s: %s; hints %s" % (etype, text[:160],
                                               json.dumps(injected)[:200]))
-        elif etype in ("TypeError", "AttributeError", "KeyError",
-                       "ValueError"):
+        elif etype in INTERNAL:
+            # a programming error inside the hint handling (as opposed to a
+            # connection failure, or Twisted's own "invalid hostname"
+            # ValueError for a syntactically bad name): reported through
+            # log.err it is an error all the same
+            V("C20.dilation.internal_error_logged.%s" % etype, "handling peer "
+              "hints never raises", "%s: %s; hints %s" %
+              (etype, text[:200], json.dumps(injected)[:300]))
+        elif etype == "ValueError":
             sim.note("probe.logged_by_errback." + etype)
     if not viol and not connected():
         V("C20.dilation.no_connection", "malformed hints never abort the "
